@@ -369,6 +369,8 @@ impl Database {
                         None
                     };
                     if let Some(pending_commits) = batch {
+                        #[cfg(kahflane_turdb_verif)]
+                        crate::verif_hooks::sched_point(404);
                         let result = self.execute_group_wal_flush(&pending_commits);
                         #[cfg(kahflane_turdb_verif)]
                         crate::verif_hooks::sched_point(403);
